@@ -9,7 +9,9 @@ LEVEL = "translation_validation"
 def run(chk, tier):
     import gflow
     gflow.check_numeric_text(chk)
-    gflow.check_declared_presence(chk)      # presence() traits and everything else follow actual_presence
+    gflow.check_declared_presence(chk)
+    import ghaz
+    ghaz.check_presence_rules(chk)      # what get_actual_presence may yield per kind of encoding      # presence() traits and everything else follow actual_presence
     e4.check(chk, ("traits",), tier)
     # type_traits<Tag>::min_value()/max_value()/null_value() return value_type's limits: those come from the XML
     # attribute or, when absent, from the generator's default tables, which must equal the SBE-derived constants
